@@ -123,7 +123,7 @@ class Generator {
   void emit(std::vector<Op>& ops, const Op& o) { ops.push_back(o); shadow_.step_shadow(o); }
 
   int pick_fn() {
-    static const int w[NFN] = {10, 4, 5, 2, 2, 2, 3, 3, 3, 3};
+    static const int w[NFN] = {10, 4, 5, 2, 2, 2, 3, 3, 3, 3, 3};
     return rng_.pick(w, NFN);
   }
 
@@ -197,7 +197,7 @@ class Generator {
       int n = rng_.chance(1, 4) ? 2 : 1;
       for (int i = 0; i < n; ++i) {
         Op in = gen_nested(depth + 1);
-        o.nested.push_back({rng_.below(3), in});
+        o.nested.push_back({rng_.chance(1, 5) ? -1 : rng_.below(3), in});
       }
     }
     return o;
